@@ -124,4 +124,49 @@ example : memoRun (fun g : List ℕ => (g.length, g.head?, g.getLast?)) (fun g =
 example : memoRun (fun g : List ℕ => g) (fun g => g.map (· * 10)) []
     [[1, 2, 9], [1, 5, 9], [1, 2, 9]] = [[10, 20, 90], [10, 50, 90], [10, 20, 90]] := by decide
 
+/-! ### the kernel argument: a registered name, or else the path of the user's file (`KERNELS.get(kernel, kernel)`)
+
+The property quantifies over "the shipped kernel and user-supplied kernel files": an argument that is not a registered NAME denotes the
+file at that path.  `resolveKernel key registered arg` looks `key arg` up in the table of registered names.  With the argument itself as
+key every unregistered argument is passed on literally (`resolveKernel_id_literal`); with ANY key the user's path is answered by a
+shipped file exactly when its key is registered (`resolveKernel_ne_iff`), so a key that forgets part of the argument (file stem, file
+name, case-folded name) hands the shipped kernel to a user whose own file is named like it: the fit is then made with other pore widths
+and another pressure range.  The harness generates such files (names equal or similar to every shipped kernel's) through both entry points. -/
+
+/-- an argument whose key is not registered is passed on literally -/
+theorem resolveKernel_literal {ι κ : Type} [BEq κ] (key : ι → κ) (registered : List (κ × ι)) (arg : ι)
+    (h : registered.lookup (key arg) = none) : resolveKernel key registered arg = arg := by
+  simp [resolveKernel, h]
+
+/-- a registered name resolves to the shipped file -/
+theorem resolveKernel_registered {ι κ : Type} [BEq κ] (key : ι → κ) (registered : List (κ × ι)) (arg shippedPath : ι)
+    (h : registered.lookup (key arg) = some shippedPath) : resolveKernel key registered arg = shippedPath := by
+  simp [resolveKernel, h]
+
+/-- the library's resolution (`key = id`): every argument that is not itself a registered name is the user's path, unchanged -/
+theorem resolveKernel_id_literal {ι : Type} [BEq ι] (registered : List (ι × ι)) (arg : ι)
+    (h : registered.lookup arg = none) : resolveKernel (fun a => a) registered arg = arg :=
+  resolveKernel_literal _ registered arg h
+
+/-- SHADOWING: the user's path is answered by another file **iff** its key is registered (for a file that is not the shipped one) -/
+theorem resolveKernel_ne_iff {ι κ : Type} [BEq κ] (key : ι → κ) (registered : List (κ × ι)) (arg : ι)
+    (hne : ∀ p, registered.lookup (key arg) = some p → p ≠ arg) :
+    resolveKernel key registered arg ≠ arg ↔ ∃ p, registered.lookup (key arg) = some p := by
+  unfold resolveKernel
+  cases h : registered.lookup (key arg) with
+  | none => simp
+  | some p => simpa using hne p h
+
+/-- witness: paths as (directory, stem, extension), the registry keyed by name.  Resolved by the whole argument the user's own file
+`work/DFT-N2-77K-carbon-slit.csv` is used; resolved by the stem it is replaced by the shipped file -/
+example : resolveKernel (fun p : String × String × String => p) [(("", "DFT-N2-77K-carbon-slit", ""), ("pygaps/data/kernels", "DFT-N2-77K-carbon-slit", ".csv"))]
+    ("work", "DFT-N2-77K-carbon-slit", ".csv") = ("work", "DFT-N2-77K-carbon-slit", ".csv") := by decide
+
+example : resolveKernel (fun p : String × String × String => p.2.1) [("DFT-N2-77K-carbon-slit", ("pygaps/data/kernels", "DFT-N2-77K-carbon-slit", ".csv"))]
+    ("work", "DFT-N2-77K-carbon-slit", ".csv") = ("pygaps/data/kernels", "DFT-N2-77K-carbon-slit", ".csv") := by decide
+
+/-- the registered name itself still resolves to the shipped file under the library's key -/
+example : resolveKernel (fun p : String × String × String => p) [(("", "DFT-N2-77K-carbon-slit", ""), ("pygaps/data/kernels", "DFT-N2-77K-carbon-slit", ".csv"))]
+    ("", "DFT-N2-77K-carbon-slit", "") = ("pygaps/data/kernels", "DFT-N2-77K-carbon-slit", ".csv") := by decide
+
 end PgVerif.Props.C18
